@@ -6,6 +6,7 @@ import (
 	"reflect"
 	"sort"
 	"strings"
+	"time"
 
 	"github.com/Query-farm/vgi-rpc-go/vgirpc"
 )
@@ -71,7 +72,19 @@ type c08F64V float64
 
 func (v c08F64V) String() string { return "F64V" }
 
+type c08TV time.Time // a named time type with its own String()
+
+func (v c08TV) String() string { return "TV" }
+
+type c08DV time.Duration // a named duration type with its own String()
+
+func (v c08DV) String() string { return "DV" }
+
 var c08NamedGo = map[string]reflect.Type{
+	"date/tv": reflect.TypeOf(c08TV{}), "ts/tv": reflect.TypeOf(c08TV{}), "time/tv": reflect.TypeOf(c08TV{}),
+	"dur/dv": reflect.TypeOf(c08DV(0)),
+	// untagged: a duration is just a named int64 with a String() method (nanoseconds in an int64 column)
+	"int/i64/td": reflect.TypeOf(time.Duration(0)), "int/i64/dv": reflect.TypeOf(c08DV(0)),
 	"str/n": reflect.TypeOf(c08SN("")), "str/sv": reflect.TypeOf(c08SV("")), "str/sp": reflect.TypeOf(c08SP("")),
 	"str/si": reflect.TypeOf(c08SI("")), "str/se": reflect.TypeOf(c08SE("")), "str/st": reflect.TypeOf(c08ST("")),
 	"str/sa":     reflect.TypeOf(c08SA("")),
@@ -102,19 +115,23 @@ func c08Meths(m string) string {
 		"si": {false, false, true, false, false}, "se": {false, false, false, true, false},
 		"st": {false, false, false, false, true}, "sa": {true, false, false, true, true},
 		"iv": {true, false, false, false, false}, "bv": {true, false, false, false, false}, "fv": {true, false, false, false, false},
+		"tv": {true, false, false, false, false}, "dv": {true, false, false, false, false}, "td": {true, false, false, false, false},
 	}[m]
 	return App("C08.Build_meths", Bool(f[0]), Bool(f[1]), Bool(f[2]), Bool(f[3]), Bool(f[4]))
 }
 
-// c08NamedRefused: the kinds the serializer refuses under a named type today.
-func c08NamedRefused(t c08T) bool {
-	switch t.K {
-	case "int", "bool", "flt":
-		return true
-	case "bin":
-		return t.S == "" || t.S == "bin"
-	}
-	return false
+// named leaf types that need no tag (usable as map key / item and as a unary result)
+func c08NamedPlainKinds() []c08T {
+	return []c08T{{K: "int", G: "i32", A: "i32", M: "iv"}, {K: "int", G: "u16", A: "u16", M: "iv"}, {K: "int", G: "i64", A: "i64", M: "n"},
+		{K: "int", G: "i64", A: "i64", M: "td"}, {K: "int", G: "i64", A: "i64", M: "dv"},
+		{K: "bin", S: "bin", M: "bv"}, {K: "bool", M: "bv"}, {K: "flt", W: 64, M: "fv"}}
+}
+
+// named leaf types under a tag
+func c08NamedTaggedKinds() []c08T {
+	return []c08T{{K: "int", G: "i32", A: "i16", M: "iv"}, {K: "int", G: "u16", A: "u32", M: "iv"}, {K: "int", G: "i64", A: "u64", M: "n"},
+		{K: "bin", S: "large", M: "bv"}, {K: "bin", S: "fix", W: 3, M: "bv"},
+		{K: "date", M: "tv"}, {K: "ts", M: "tv"}, {K: "ts", S: "utc", M: "tv"}, {K: "time", M: "tv"}, {K: "dur", M: "dv"}}
 }
 
 var c08StrFlavours = []string{"n", "sv", "sp", "si", "se", "st", "sa"}
@@ -127,6 +144,13 @@ func c08NamedStr(m, s string) c08T {
 }
 
 func c08RandNamed(r *rand.Rand, plain bool) c08T {
+	if r.Intn(2) == 0 {
+		ks := c08NamedPlainKinds()
+		if !plain {
+			ks = append(ks, c08NamedTaggedKinds()...)
+		}
+		return ks[r.Intn(len(ks))]
+	}
 	m := c08StrFlavours[r.Intn(len(c08StrFlavours))]
 	if plain {
 		return c08NamedStr(m, "utf8")
@@ -173,13 +197,6 @@ func c08GenNamed(r *rand.Rand, add func(dir string, t c08T, v c08V, tag string))
 		add("res", c08StructT(c08MapT(t, t)), c08L(c08L(k1, v1, k2, k1)), "named-result")
 		add("res", c08StructT(c08MapT(c08Str, c08Ptr(t))), c08L(c08L(k1, c08V{Nil: true}, k2, v1)), "named-result")
 	}
-	// named []byte where asBytes accepts it
-	for _, t := range []c08T{{K: "bin", S: "large", M: "bv"}, {K: "bin", S: "fix", W: 3, M: "bv"}} {
-		st := c08StructT(t, c08Ptr(t), c08ListT(t))
-		sv := c08L(c08Bs("abc"), c08Bs("xyz"), c08L(c08Bs("abc"), c08Bs("\x00\xff\x01")))
-		add("g2w", st, sv, "named-bytes")
-		add("w2g", st, sv, "named-bytes")
-	}
 	// the result path for ordinary types too
 	add("res", c08StructT(c08Str), c08L(c08Bs("plain")), "result")
 	add("res", c08StructT(c08I64), c08L(c08I(-7)), "result")
@@ -187,14 +204,31 @@ func c08GenNamed(r *rand.Rand, add func(dir string, t c08T, v c08V, tag string))
 	add("res", c08StructT(c08ListT(c08Str)), c08L(c08L(c08Bs("a"), c08Bs(""))), "result")
 	add("res", c08StructT(c08MapT(c08Str, c08I64)), c08L(c08L(c08Bs("k"), c08I(1))), "result")
 	add("res", c08StructT(c08T{K: "bin", S: "bin"}), c08L(c08Bs("\x00\x01")), "result")
-	// kinds the serializer refuses under a named type (bare, list element, decode side)
-	for _, t := range []c08T{{K: "int", G: "i32", A: "i32", M: "iv"}, {K: "int", G: "u16", A: "u16", M: "iv"}, {K: "int", G: "i64", A: "i64", M: "n"},
-		{K: "bin", S: "bin", M: "bv"}, {K: "bool", M: "bv"}, {K: "flt", W: 64, M: "fv"}} {
-		v := c08RandScalar(r, t).nonNil()
-		add("g2w", c08StructT(t), c08L(v), "named-refused")
-		add("g2w", c08StructT(c08ListT(t)), c08L(c08L(v)), "named-refused")
-		add("w2g", c08StructT(t), c08L(c08RandWire(r, t)), "named-refused")
-		add("res", c08StructT(t), c08L(v), "named-refused")
+	// every other named leaf kind (integers incl. retyped ones, float, bool, []byte in binary /
+	// large_binary / fixed_size_binary columns, date / timestamp / time / duration) in every position
+	plain := c08NamedPlainKinds()
+	for i, t := range append(append([]c08T{}, plain...), c08NamedTaggedKinds()...) {
+		pt := c08Ptr(t)
+		st := c08StructT(t, pt, pt, c08ListT(t), c08ListT(pt), c08Ptr(c08StructT(t, pt)))
+		gv := func() c08V { return c08RandScalar(r, t).nonNil() }
+		add("g2w", st, c08L(gv(), c08V{Nil: true}, gv(), c08L(gv(), gv()), c08L(c08V{Nil: true}, gv()), c08L(gv(), gv())), "named-kinds")
+		wv := func() c08V { return c08RandWire(r, t) }
+		add("w2g", st, c08L(wv(), c08V{Nil: true}, wv(), c08L(wv(), wv()), c08L(c08V{Nil: true}, wv()), c08L(wv(), wv())), "named-kinds")
+		if i >= len(plain) {
+			continue
+		}
+		mt := c08StructT(c08MapT(c08Str, t), c08MapT(c08Str, pt), c08MapT(c08Str, c08ListT(t)))
+		add("g2w", mt, c08L(c08L(c08Bs("a"), gv(), c08Bs("b"), gv()), c08L(c08Bs("a"), c08V{Nil: true}, c08Bs("b"), gv()), c08L(c08Bs("a"), c08L(gv(), gv()))), "named-kinds-map")
+		add("w2g", mt, c08L(c08L(c08Bs("a"), wv(), c08Bs("b"), wv()), c08L(c08Bs("a"), c08V{Nil: true}, c08Bs("b"), wv()), c08L(c08Bs("a"), c08L(wv(), wv()))), "named-kinds-map")
+		if t.K == "int" { // as a map key too
+			kt := c08StructT(c08MapT(t, t))
+			add("g2w", kt, c08L(c08L(c08I(1), gv(), c08I(2), gv(), c08I(10), gv())), "named-kinds-map")
+			add("w2g", kt, c08L(c08L(c08I(1), wv(), c08I(2), wv(), c08I(10), wv())), "named-kinds-map")
+		}
+		add("res", c08StructT(t), c08L(gv()), "named-kinds-result")
+		add("res", c08StructT(pt), c08L(c08V{Nil: true}), "named-kinds-result")
+		add("res", c08StructT(c08ListT(pt)), c08L(c08L(gv(), c08V{Nil: true})), "named-kinds-result")
+		add("res", c08StructT(c08MapT(c08Str, t)), c08L(c08L(c08Bs("k"), gv())), "named-kinds-result")
 	}
 }
 
